@@ -15,12 +15,15 @@ ID = 'C19'
 LEAN_MODULES = ['PybtexModel.Props.C19']
 THEOREMS = {
     'C19_content': 'joining the (un-stripped) lines back reproduces the text: s = l0 ++ [c1] ++ drop |indent| l1 ++ ... with white-space c_i (plus at most one final white-space character when the indent is empty); nothing lost, duplicated or altered',
+    'C19_content_exact': 'with a non-empty indent (BibTeX output: two blanks) the reconstruction is exact: s = l0 ++ [c1] ++ drop |indent| l1 ++ ...',
+    'C19_content_trail_needed': 'witness (empty indent, wrap("aaaa ", 3, "")): the final white-space character consumed by the last break is in no line, so the exception in C19_content cannot be dropped',
     'C19_content_output': 'end to end on the returned string (white-space indent): the non-white-space characters of wrap(s) are exactly those of s, in order',
     'C19_breaks_at_ws': 'every line break replaces one white-space character of the text, and the rest of the lines are the wrapping of indent + remainder (inductive characterisation of all breaks)',
     'C19_words': 'no word is split, lost, duplicated or altered: the words of s are the words of the lines, line after line; also on the returned string',
     'C19_indent': 'every continuation line starts with the indent (un-stripped lines); an emitted continuation line starts with the indent or is a prefix of it (empty for a white-space indent)',
     'C19_width': 'a yielded line longer than width has no white space at any position p with |indent| < p <= width; a line that has such a legal break position has length <= width (also for the emitted, stripped lines)',
     'C19_greedy': 'lines are as long as possible (docstring): a break falls on a white-space position behind the indent, and the next white space (or the end of the string) after it lies beyond width',
+    'C19_legal_break': 'every line that is followed by another line is longer than the indent: breaks happen strictly behind the indent region (what termination rests on)',
     'C19_rstrip': 'the returned string is the "\\n"-join of the lines with only trailing white space removed; no emitted line ends in white space',
     'C19_short_identity': '|s| <= width => a single line (none for the empty string) and wrap(s) = rstrip(s)',
     'C19_terminates': 'iter_lines terminates (well-founded definition; the decrease is |indent| < break_pos < |s|): at most |s| + 1 lines',
@@ -248,7 +251,10 @@ def clauses(text, width, indent, out):
             fails.append('content: the end of the text %r is missing from the output' % rest[:40])
         elif len(rest) < pending:
             fails.append('content: %d trailing line break(s) but only %d trailing white-space character(s) in the text' % (pending, len(rest)))
-    return fails
+    # `greedy` and `legal_break` come from the function's docstring, not from the property statement: a change that only makes
+    # lines shorter than necessary still satisfies C19.  They are therefore NOT property failures (a change of that kind shows up
+    # as a model/implementation disagreement and is reported as `no-failing-input-found`).
+    return [f for f in fails if not f.startswith(('greedy:', 'legal_break:'))]
 
 
 def spec_clauses(text, width, indent, out, spec):
